@@ -778,13 +778,53 @@ pub fn world_with(mask: u32) -> (World, SpendConditions) {
 
 /// `((op . args))` with a one- or two-byte opcode atom
 pub fn one_condition(a: &mut Allocator, op: u16) -> NodePtr {
+    one_condition_args(a, op, &[])
+}
+
+/// `((op arg0 arg1 ...))`. Under Kani `parse_args` is stubbed and never looks at the
+/// arguments; under native replay (no stubs) the REAL `parse_args` decodes them, so a
+/// harness that passes the arguments its expected condition was made from replays faithfully.
+pub fn one_condition_args(a: &mut Allocator, op: u16, args: &[NodePtr]) -> NodePtr {
     let opn = if op < 256 {
         a.new_atom(&[op as u8]).unwrap()
     } else {
         a.new_atom(&op.to_be_bytes()).unwrap()
     };
-    let c = a.new_pair(opn, NodePtr::NIL).unwrap();
+    let mut list = NodePtr::NIL;
+    let mut i = args.len();
+    while i > 0 {
+        i -= 1;
+        list = a.new_pair(args[i], list).unwrap();
+    }
+    let c = a.new_pair(opn, list).unwrap();
     a.new_pair(c, NodePtr::NIL).unwrap()
+}
+
+/// true only when the harness body runs natively (concrete playback); stubbed to `false`
+/// in every arm harness, so under Kani the native-only argument construction is pruned
+pub fn is_native() -> bool {
+    true
+}
+pub fn is_native_no() -> bool {
+    false
+}
+
+/// the atom a condition's integer argument would be: built only under native replay (under
+/// Kani a symbolic integer atom has a symbolic length, and nothing reads it anyway)
+pub fn int_arg(a: &mut Allocator, v: u64) -> NodePtr {
+    if is_native() {
+        a.new_u64(v).unwrap()
+    } else {
+        NodePtr::NIL
+    }
+}
+/// a negative integer argument (native replay of the tautology arms)
+pub fn neg_arg(a: &mut Allocator) -> NodePtr {
+    if is_native() {
+        a.new_atom(&[0xff]).unwrap()
+    } else {
+        NodePtr::NIL
+    }
 }
 
 pub struct Outcome {
